@@ -75,7 +75,7 @@ def entries_for(plan, pt):
             pass
         return out
     if len(plan["recipients"]) > 1:
-        return ["jwe.decrypt_json", "jwe.decrypt_json:any"]
+        return ["jwe.decrypt_json", "jwe.decrypt_json:any", "jwe.decrypt_json:list+registry"]
     return ["jwe.decrypt_json"]
 
 
@@ -123,6 +123,10 @@ def call_entry(entry, token, plan, index=0):
     if entry == "jwe.decrypt_json":
         keyarg = keys[0] if len(keys) == 1 else KeySet(keys)
         return jwe.decrypt_json(tok, keyarg, algorithms=jp.ALL_NAMES, sender_key=sender).plaintext, False
+    if entry == "jwe.decrypt_json:list+registry":
+        # a list of names next to a caller registry that merely switches strict header checking off: every recipient still counts
+        keyarg = keys[0] if len(keys) == 1 else KeySet(keys)
+        return jwe.decrypt_json(tok, keyarg, algorithms=jp.ALL_NAMES, registry=jwe.JWERegistry(strict_check_header=False), sender_key=sender).plaintext, False
     if entry == "jwe.decrypt_json:any":
         reg = jwe.JWERegistry(algorithms=jp.ALL_NAMES, verify_all_recipients=False)
         return jwe.decrypt_json(tok, KeySet(keys), registry=reg, sender_key=sender).plaintext, False
